@@ -161,13 +161,13 @@ func ghost_nwrites(w io.Writer) int { panic("ghost") }
 // write counter.  (Content fidelity is C02.)
 //@ func (*Session).sendMessage
 //@   requires spec_valid(s) && msg != nil
-//@   modifies s.sendError, ghost_nwrites(s.conn)
+//@   modifies s.sendError, ghost_nwrites(s.conn), allof(ghost_srcContent)
 //@   loop 1: invariant true
 //@   serves C13 C02
 
 //@ func (*Session).sendMessageTop
 //@   requires spec_valid(s) && msg != nil
-//@   modifies s.sendError, ghost_nwrites(s.conn)
+//@   modifies s.sendError, ghost_nwrites(s.conn), allof(ghost_srcContent)
 //@   loop 1: invariant true
 //@   serves C13 C02
 
@@ -184,7 +184,7 @@ func ghost_nwrites(w io.Writer) int { panic("ghost") }
 // RSET sets all; only QUIT removes anything, and it removes exactly the marked messages.
 //@ func (*Session).transactionHandler
 //@   requires I_pop(s) && s.state == TRANSACTION
-//@   modifies s.state, s.retain, elems(s.retain), s.msgCount, s.sendError, ghost_nwrites(s.conn), ghost_nremoved(s.store), ghost_rmBoxes(s.store), ghost_rmIDs(s.store)
+//@   modifies s.state, s.retain, elems(s.retain), s.msgCount, s.sendError, ghost_nwrites(s.conn), ghost_nremoved(s.store), ghost_rmBoxes(s.store), ghost_rmIDs(s.store), allof(ghost_srcContent)
 //@   ensures I_pop(s) && (s.state == TRANSACTION || s.state == QUIT)
 //@   ensures[quitOnly] storage.Ghost_nremoved(s.store) != old(storage.Ghost_nremoved(s.store)) ==> cmd == "QUIT" && s.state == QUIT
 //@   ensures[quitRemovesMarked] cmd == "QUIT" ==> s.state == QUIT &&
